@@ -347,6 +347,28 @@ int main(int argc, char** argv) {
 			all_engines(P, (pi & 1) != 0, 1 + (pi % 2), rng.below(4), true, "oracle");
 		}
 	}
+	else if (part == "interleave") { // two decoder objects compiling two programs alternately, instruction by instruction (the per-instruction interface is public):
+		// each program's branch targets must be those of its own program
+		int np = thorough ? 200 : 40;
+		for (int pi = 0; pi < np; ++pi) {
+			bool v2 = (pi & 1) != 0; int size = v2 ? 384 : 256;
+			Prog A, B; random_program(rng, A, 384, 1); random_program(rng, B, 384, pi % 4);
+			// branch-heavy programs over few registers
+			for (int i = 0; i < size; ++i) { A.buf[128 + 8 * i + 1] &= 0xfb; B.buf[128 + 8 * i + 1] &= 0xf9; }
+			BytecodeMachine ma, mb; NativeRegisterFile ra, rb; static InstructionByteCode ca[384], cb[384];
+			ma.beginCompilation(ra); mb.beginCompilation(rb);
+			for (int i = 0; i < size; ++i) {
+				Instruction ia, ib; memcpy(&ia, A.buf + 128 + 8 * i, 8); memcpy(&ib, B.buf + 128 + 8 * i, 8);
+				ma.compileInstruction(ia, i, ca[i]); mb.compileInstruction(ib, i, cb[i]);
+			}
+			for (int which = 0; which < 2; ++which) {
+				const Prog& Q = which ? B : A; InstructionByteCode* c = which ? cb : ca;
+				std::string ws = "[", tg = "[";
+				for (int i = 0; i < size; ++i) { if (i) { ws += ","; tg += ","; } ws += json_bytes(Q.buf + 128 + 8 * i, 8); tg += std::to_string(c[i].type == InstructionType::CBRANCH ? (int)c[i].target : -2); }
+				Line l; l.str("e", "decode").boolean("v2", v2).raw("words", ws + "]").raw("targets", tg + "]"); l.emit(out);
+			}
+		}
+	}
 	else if (part == "sweep") { // every instruction kind x {src = dst, src != dst} x immediates around every sign / size boundary, packed into programs run for one iteration (oracle)
 		static const uint8_t kinds[] = { 0, 16, 23, 39, 46, 62, 66, 70, 71, 75, 76, 84, 86, 101, 106, 114, 116, 120, 124, 140, 145, 161, 166, 172, 204, 208, 214, 239, 240 };
 		static const uint32_t imms[] = { 0, 1, 2, 3, 0x3f, 0x40, 0x7e, 0x7f, 0x80, 0x81, 0xfe, 0xff, 0x100, 0x101, 0x7fff, 0x8000, 0xffff, 0x10000, 0x7fffff, 0x800000, 0x7ffffffe, 0x7fffffff,
